@@ -130,6 +130,8 @@ type Expr struct {
 	Args []*Expr
 	// Spell selects an alternative spelling of the operator / of not (layout only).
 	Spell int
+	// RawErr: an ERaw expression whose evaluation must be an error (else: not modelled).
+	RawErr bool
 }
 
 func ENumber(n float64) *Expr                { return &Expr{K: ENum, N: n} }
@@ -142,6 +144,9 @@ func EBinary(op string, l, r *Expr) *Expr    { return &Expr{K: EBin, Op: op, L: 
 func ECallOf(fn string, args ...*Expr) *Expr { return &Expr{K: ECall, S: fn, Args: args} }
 func ENullLit() *Expr                        { return &Expr{K: ENull} }
 func EParens(e *Expr) *Expr                  { return &Expr{K: EParen, L: e} }
+
+// ERawOf is an expression given as text; mustErr says whether evaluating it must fail.
+func ERawOf(text string, mustErr bool) *Expr { return &Expr{K: ERaw, S: text, RawErr: mustErr} }
 
 // Operators in the order of the property statement's precedence table (tightest first).
 var BinaryOps = []string{"*", "/", "%", "+", "-", "<=", ">=", "<", ">", "==", "!=", "and", "or", "xor"}
